@@ -81,6 +81,7 @@ static void blocks_room(void) {
 
 static uint8_t cur_rand[64];
 static size_t cur_rand_len;
+static unsigned cur_rand_calls;   /* consultations of the random source since the op set its output */
 static uint64_t cur_clock;
 static int cur_alloc_ok = 1;
 static char* stack_base;
@@ -170,7 +171,11 @@ static void rand_t(void* result, size_t n, const char* kind) {
     in_cb++;
     ev_begin(kind); ev_num(n);
     uint8_t* r = result;
-    for (size_t i = 0; i < n; ++i) r[i] = i < cur_rand_len ? cur_rand[i] : 0;
+    /* the first consultation yields the op's bytes; a further one (the library is expected to make none)
+       yields different bytes, so that a seed built from it is visibly not the first output */
+    uint8_t x = cur_rand_calls ? (uint8_t)(0xA5 + cur_rand_calls) : 0;
+    for (size_t i = 0; i < n; ++i) r[i] = (i < cur_rand_len ? cur_rand[i] : 0) ^ x;
+    cur_rand_calls++;
     in_cb--;
 }
 
@@ -405,6 +410,7 @@ static void process(char* line) {
     else if (!strncmp(line, "create", 6)) {
         size_t rl; uint8_t* r = fhex(line, "rand", &rl, 0);
         cur_rand_len = rl < sizeof cur_rand ? rl : sizeof cur_rand;
+        cur_rand_calls = 0;
         memcpy(cur_rand, r, cur_rand_len);
         polyseed_data* seed = NULL;
         in_lib = 1;
